@@ -3,7 +3,7 @@
 # the property it breaks, and records whether the check reported it.  Leaves /repo clean and the evidence files of
 # the clean tree untouched (they are saved and restored).
 cd /verif
-out=/verif/seeded/RESULTS.txt
+out=/verif/seeded/RESULTS${2:+-$2}.txt
 tmp=$(mktemp -d /verif/build/work/seeds.XXXX)
 cp -r /verif/evidence $tmp/evidence; cp -r /verif/replays $tmp/replays 2>/dev/null
 : > $out.new
